@@ -250,6 +250,92 @@ static void textChainHistory(vh::Rng& rng, int L) {
   }
 }
 
+// text layer mirrored to the Lean model (Model/Thesaurus.lean): the Thesaurus class driven directly; every op is
+// a `c07 t…` line, after every op `c07 treport` = every resolved term / definition, compared with the model
+// AND with the model's from-scratch rebuild (spec column; n/a while term references are cyclic).
+// Term texts never mention their own entity (LexicalTerm::cachedForms is not modelled, see the model's header).
+static std::string tReport(const Thesaurus& t) {
+  std::string out;
+  for (const auto& cst : t) {
+    if (!out.empty()) out += ",";
+    out += std::to_string(cst.uid) + ":" + vh::hex(cst.term.Nominal()) + "|" + vh::hex(cst.definition.Str());
+  }
+  return out.empty() ? "-" : out;
+}
+static void textModelHistory(vh::Rng& rng, int L, bool fixedChain) {
+  Thesaurus t;
+  emit("c07 treset", "ok");
+  std::vector<uint32_t> ids;
+  const std::vector<std::string> aliases = { "X1", "D1", "D2", "D3", "D4" };
+  auto hx = [](const std::string& s) { return vh::hex(s); };
+  auto ins = [&](uint32_t uid, const std::string& a, const std::string& term, const std::string& def) {
+    const bool ok = t.Emplace(uid, a, lang::LexicalTerm{ term }, lang::ManagedText{ def });
+    emit(ok ? "c07 tins " + std::to_string(uid) + " " + hx(a) + " " + hx(term) + " " + hx(def) : std::string("c07 noop"), "ok");
+    if (ok) ids.push_back(uid);
+    emit("c07 treport", tReport(t));
+  };
+  auto refTo = [&](const std::string& a) { return "@{" + a + (rng.chance(1, 2) ? "|nomn,sing}" : "|datv,plur}"); };
+  if (fixedChain) {
+    // X1 <- term of D1 <- definition text of D2; then the term of X1 is edited
+    ins(1, "X1", "alpha", "");
+    ins(2, "D1", "big @{X1|nomn,sing}", "");
+    ins(3, "D2", "", "see @{D1|nomn,sing} end");
+    t.SetTermFor(1, "beta"); emit("c07 tset 1 " + hx("beta"), "ok"); emit("c07 treport", tReport(t));
+    return;
+  }
+  const int n = rng.range(3, 5);
+  for (int i = 0; i < n; ++i) {
+    const auto a = aliases[static_cast<size_t>(i)];
+    std::string term = "w" + std::to_string(i);
+    if (i > 0 && rng.chance(3, 4)) term += " " + refTo(aliases[static_cast<size_t>(rng.range(0, i - 1))]);
+    std::string def = rng.chance(2, 3) ? "see " + refTo(rng.pick(aliases)) + " end" : std::string{};
+    ins(static_cast<uint32_t>(i + 1), a, term, def);
+  }
+  auto pick = [&]() -> uint32_t { return (!ids.empty() && rng.chance(9, 10)) ? rng.pick(ids) : static_cast<uint32_t>(rng.range(1, 7)); };
+  auto aliasOf = [&](uint32_t uid) { return t.Contains(uid) ? t.At(uid).alias : std::string("Q9"); };
+  for (int step = 0; step < L; ++step) {
+    const auto u = pick();
+    const int r = rng.range(0, 99);
+    if (r < 25) {
+      const auto text = "n" + std::to_string(step);
+      t.SetTermFor(u, text); emit("c07 tset " + std::to_string(u) + " " + hx(text), "ok");
+    } else if (r < 50) {
+      auto other = rng.pick(aliases);
+      if (other == aliasOf(u)) other = "Z9";                       // no self-mention in a term
+      const auto text = "r" + std::to_string(step) + " " + refTo(other) + (rng.chance(1, 4) ? " @{-1|stem}" : "");
+      t.SetTermFor(u, text); emit("c07 tset " + std::to_string(u) + " " + hx(text), "ok");
+    } else if (r < 65) {
+      const auto text = "d" + std::to_string(step) + " " + refTo(rng.pick(aliases)) + (rng.chance(1, 3) ? " and " + refTo(rng.pick(aliases)) : "");
+      t.SetDefinitionFor(u, text); emit("c07 dset " + std::to_string(u) + " " + hx(text), "ok");
+    } else if (r < 75) {
+      const auto text = "f" + std::to_string(step % 3);
+      t.SetTermFormFor(u, text, lang::Morphology{ lang::Grammem::datv, lang::Grammem::plur });
+      emit("c07 tform " + std::to_string(u) + " " + hx(text), "ok");
+    } else if (r < 82) {
+      // erase (aliases stay pairwise distinct in these histories)
+      t.Erase(u); emit("c07 terase " + std::to_string(u), "ok");
+      ids.erase(std::remove(ids.begin(), ids.end(), u), ids.end());
+    } else if (r < 88) {
+      std::string a;
+      for (const auto& cand : std::vector<std::string>{ "X1", "D1", "D2", "D3", "D4", "D5", "D6" })
+        if (!t.FindAlias(cand).has_value()) { a = cand; break; }
+      const auto uid = static_cast<uint32_t>(rng.range(1, 7));
+      if (!a.empty()) { ins(uid, a, "k" + std::to_string(step), rng.chance(1, 2) ? "of " + refTo(rng.pick(aliases)) : std::string{}); continue; }
+      emit("c07 noop", "ok");
+    } else if (r < 96) {
+      std::string a;
+      for (const auto& cand : std::vector<std::string>{ "D5", "D6", "D1", "D2", "D3", "D4", "X1" })
+        if (!t.FindAlias(cand).has_value()) { a = cand; break; }
+      const bool subst = rng.chance(1, 2);
+      if (!a.empty() && t.Contains(u)) { t.SetAliasFor(u, a, subst); emit("c07 talias " + std::to_string(u) + " " + hx(a) + " " + (subst ? "1" : "0"), "ok"); }
+      else emit("c07 noop", "ok");
+    } else {
+      t.UpdateState(); emit("c07 tupdate", "ok");
+    }
+    emit("c07 treport", tReport(t));
+  }
+}
+
 int main() {
   vh::Rng rng(vh::seedFromEnv());
   ccl::verif::Seed(static_cast<uint32_t>(vh::seedFromEnv() * 2654435761U + 17U));
@@ -273,5 +359,7 @@ int main() {
   for (int h = 0; h < HF; ++h) fragmentHistory(rng, deep ? 30 : 20);
   for (int h = 0; h < HG; ++h) generalHistory(rng, deep ? 30 : 20);
   for (int h = 0; h < HG; ++h) textChainHistory(rng, deep ? 16 : 10);
+  textModelHistory(rng, 0, true);
+  for (int h = 0; h < (deep ? 1500 : 150); ++h) textModelHistory(rng, deep ? 20 : 12, false);
   return 0;
 }
